@@ -100,7 +100,7 @@ theorem ta_accept_sound {tr : List Ev} {mf : List St} (h : accept tr = (none, mf
   · apply hne
     have : init ∈ close [init] := by
       simp only [close]
-      exact closure_superset _ _ _ _ (by simp [insertNew])
+      exact closure_superset _ _ _ _ _ (by simp [insertNew])
     intro h0; rw [h0] at this; simp at this
   · intro t ht
     obtain ⟨s0, hs0, htr⟩ := hall t ht
